@@ -3,7 +3,9 @@
 E1, exhaustive product over
   P  every parameter dictionary with 1..2 (thorough: 3) entries over a ~40 value
      alphabet (Python / numpy scalars of every width, strings, lists, sets,
-     real arrays 1-D..3-D incl. empty ones) x every subset of the iterable
+     real arrays 1-D..3-D incl. empty ones, and the same kinds of arrays as
+     transposed / Fortran-ordered / strided / negative-stride / swapaxes views,
+     read-only and 0-d arrays) x every subset of the iterable
      entries marked unpacked x {the object itself, every unpacked child}
      x {JSON string, pickle string, pickle file of the parameters} and, wrapped
      in a SimulationResults, x {JSON string, pickle string, .json / .pickle /
@@ -40,12 +42,15 @@ from vmc.report import Check
 PID = "C17"
 LEVEL = "exploration"
 ENGINE = "E1 exhaustive product (value alphabet x unpack subsets x children x result histories x targets)"
-RULE = ("P: all dictionaries with 1..2 (thorough 3) entries over the value alphabet x every subset of iterable "
+RULE = ("P: all dictionaries with 1..2 (thorough 3) entries over the value alphabet (42 values; plus 8 array memory "
+        "presentations - transposed, Fortran-ordered, strided, negative-stride, swapaxes, read-only, 0-d - crossed with "
+        "each other and with a representative of every value kind, thorough: full square) x every subset of iterable "
         "entries unpacked x object itself and every unpacked child x params targets {json, pickle, pickle file} "
         "and SimulationResults targets {json, pickle, save_to_file .json/.pickle/no extension with a template "
         "over all parameter names}; R: all four result types x all update histories <= 3 (quick 2) x accumulate "
         "x {json, pickle}, and the same inside SimulationResults x runned_reps x current_rep x all targets; N: "
-        "file-name determinism and pairwise injectivity over the scalar alphabet. Non-trivial = the object holds "
+        "file-name determinism and pairwise injectivity over the scalar alphabet (incl. tiny floats, large floats a "
+        "fine step / one ulp apart, ints beyond 2^53, narrow floats). Non-trivial = the object holds "
         "a value JSON has no native form for (numpy scalar/array, set), an unpack mark, or a result with >= 1 "
         "update; distinct = distinct (dictionary, unpack subset, child index) / (type, accumulate, history)")
 
@@ -83,6 +88,40 @@ def value_alphabet():
     return A
 
 
+def array_presentations():
+    """the same kinds of arrays in every memory presentation numpy can hand
+    over: transposed / Fortran-ordered / strided / negative-stride / swapaxes
+    views, a read-only array, a 0-d array.  (label, value); built fresh on
+    every call.  An encoder that walks the buffer instead of the logical index
+    order, or that needs a writeable / contiguous array, shows up here only."""
+    ro = np.arange(4).reshape(2, 2) + 10
+    ro.flags.writeable = False
+    B = [
+        ("arr_2d_T", np.arange(6).reshape(2, 3).T),
+        ("arr_2d_F_f32", np.asfortranarray(np.array([[0.5, 1.0, 1.5], [2.0, 2.5, 3.0]], dtype=np.float32))),
+        ("arr_2d_strided", np.arange(12).reshape(3, 4)[:, ::2]),
+        ("arr_1d_negstride", np.arange(5.0)[::-1] / 2),
+        ("arr_2d_negstride", np.arange(6, dtype=np.int32).reshape(2, 3)[::-1, ::-1]),
+        ("arr_3d_swapaxes", np.arange(12, dtype=float).reshape(2, 3, 2).swapaxes(0, 2) / 4),
+        ("arr_2d_readonly", ro),
+        ("arr_0d", np.array(2.5)),
+    ]
+    return B
+
+
+def full_alphabet():
+    return value_alphabet() + array_presentations()
+
+
+REPRESENTATIVES = ("int", "np.float32", "str", "list_int", "set_int", "arr_i64", "arr_2d_i64", "arr_empty_2d")
+
+
+def unpackable(v):
+    """iterable in the sense of set_unpack_parameter AND actually iterable
+    (a 0-d array is an instance of Iterable but cannot be iterated)"""
+    return isinstance(v, Iterable) and not (isinstance(v, np.ndarray) and v.ndim == 0)
+
+
 def is_native(v):
     return type(v) in (int, float, str, bool)
 
@@ -94,6 +133,14 @@ def result_alphabets():
         "CHOICE": [[0], [1], [2], [np.int64(1)]],
         "MISC": [["a"], [7], [[1]], [{1, 2}], [np.float32(2.5)]],
     }
+
+
+def result_alphabets_with_arrays():
+    """+ a 0-d array observation for SUM (the only array a Result can hold and
+    still be compared with ==)"""
+    al = result_alphabets()
+    al["SUM"] = al["SUM"] + [[np.array(2.5)]]
+    return al
 
 
 def scalar_names_alphabet():
@@ -489,6 +536,11 @@ def build_params(entries, subset):
     from pyphysim.simulations.parameters import SimulationParameters
     d = {NAMES[i]: copy.deepcopy(v) for i, (_, v) in enumerate(entries)}
     p = SimulationParameters.create(d)
+    for i, (_, v) in enumerate(entries):
+        if isinstance(v, np.ndarray) and (not v.flags.c_contiguous or not v.flags.writeable):
+            # create() deep-copies (which normalises strides / the read-only flag): hand the
+            # freshly built view over as it is, the way SimulationParameters.add does
+            p.add(NAMES[i], v)
     for n in subset:
         p.set_unpack_parameter(n)
     return p
@@ -516,7 +568,7 @@ def template_for(n):
 
 
 def run_params_case(c, case, T):
-    A = dict(value_alphabet())
+    A = dict(full_alphabet())
     labels = case["labels"]
     entries = [(lab, A[lab]) for lab in labels]
     subset = case["unpacked"]
@@ -562,18 +614,34 @@ def params_targets(n, which, nsub):
 
 def params_cases(tier):
     """deterministic generator of (labels, unpack subset) work items"""
-    A = value_alphabet()
-    sizes = (1, 2, 3) if tier == "thorough" else (1, 2)
-    for n in sizes:
-        for entries in itertools.product(A, repeat=n):
-            yield ("P", [lab for lab, _ in entries])
+    A = [lab for lab, _ in value_alphabet()]
+    B = [lab for lab, _ in array_presentations()]
+    for lab in A + B:
+        yield ("P", [lab])
+    if tier == "thorough":
+        for a in A + B:
+            for b in A + B:
+                yield ("P", [a, b])
+        for labs in itertools.product(A, repeat=3):
+            yield ("P", list(labs))
+    else:
+        for a in A:
+            for b in A:
+                yield ("P", [a, b])
+        # array presentations: with each other and, in both positions, with a representative of every value kind
+        for a in B:
+            for b in B + list(REPRESENTATIVES):
+                yield ("P", [a, b])
+        for a in REPRESENTATIVES:
+            for b in B:
+                yield ("P", [a, b])
 
 
 def expand_params_item(c, item, tier, T):
-    A = dict(value_alphabet())
+    A = dict(full_alphabet())
     labels = item[1]
     n = len(labels)
-    iterable = [NAMES[i] for i, lab in enumerate(labels) if isinstance(A[lab], Iterable)]
+    iterable = [NAMES[i] for i, lab in enumerate(labels) if unpackable(A[lab])]
     for r in range(len(iterable) + 1):
         for subset in itertools.combinations(iterable, r):
             case = {"part": "P", "labels": labels, "unpacked": list(subset), "object": -1}
@@ -608,7 +676,7 @@ def build_result(t, acc, obs, name="r"):
 
 
 def obs_from_idx(t, idx):
-    al = result_alphabets()[t]
+    al = result_alphabets_with_arrays()[t]
     return [al[i] for i in idx]
 
 
@@ -664,7 +732,7 @@ def run_result_case(c, case, T):
 
 def result_cases(tier, types_ok):
     L = 3 if tier == "thorough" else 2
-    al = result_alphabets()
+    al = result_alphabets_with_arrays()
     for t in ("SUM", "RATIO", "CHOICE", "MISC"):
         for acc in (False, True):
             # a CHOICE result that cannot be updated can still be built and saved: empty history only
@@ -783,7 +851,7 @@ def main(chk: Check):
         chk.cap("CHOICETYPE results not explored: every Result.update of a CHOICETYPE result raises "
                 "(reported under its own signature Result.update|CHOICETYPE|exception|...)")
     chk.extra["choice_branch_explored"] = choice_ok
-    chk.extra["value_alphabet"] = [lab for lab, _ in value_alphabet()]
+    chk.extra["value_alphabet"] = [lab for lab, _ in full_alphabet()]
     tier = chk.tier
     top = make_tmpdir()
     try:
